@@ -165,7 +165,7 @@ def extract(repo):
     _need(re.search(r"DICTdo_init\s*\(\s*sch->symbol_table\s*,\s*&de\s*\)", ps), "printSchemaFilenames iterates sch->symbol_table with DICTdo_init (all classes)")
     cases = re.findall(r"case\s+(OBJ_[A-Z_]+)\s*:", ps)
     _need(cases == ["OBJ_ENTITY", "OBJ_TYPE"], f"printSchemaFilenames handles exactly OBJ_ENTITY and OBJ_TYPE (found {cases})")
-    m = re.search(r"case\s+OBJ_TYPE\s*:\s*\{\s*Type\s+t\s*=\s*\(\s*Type\s*\)\s*x\s*;\s*if\s*\(\s*TYPEis_([a-z]+)\s*\(\s*t\s*\)\s*&&\s*\(\s*TYPEget_head\s*\(\s*t\s*\)\s*\)\s*\)\s*\{\s*break\s*;\s*\}\s*if\s*\(\s*notGenerated\s*\(\s*t\s*\)\s*\)\s*\{\s*break\s*;\s*\}\s*fn\s*=\s*getTypeFilenames\s*\(\s*t\s*\)\s*;", ps)
+    m = re.search(r"case\s+OBJ_TYPE\s*:\s*\{\s*Type\s+t\s*=\s*\(\s*Type\s*\)\s*x\s*;\s*(?:anyType\s*=\s*true\s*;\s*)?if\s*\(\s*TYPEis_([a-z]+)\s*\(\s*t\s*\)\s*&&\s*\(\s*TYPEget_head\s*\(\s*t\s*\)\s*\)\s*\)\s*\{\s*break\s*;\s*\}\s*if\s*\(\s*notGenerated\s*\(\s*t\s*\)\s*\)\s*\{\s*break\s*;\s*\}\s*fn\s*=\s*getTypeFilenames\s*\(\s*t\s*\)\s*;", ps)
     _need(m, "printSchemaFilenames OBJ_TYPE: renamed-<kind> skip, notGenerated skip, getTypeFilenames")
     ps_skip = [m.group(1) + "_"]
     _need(re.search(r"case\s+OBJ_ENTITY\s*:\s*fn\s*=\s*getEntityFilenames\s*\(\s*\(\s*Entity\s*\)\s*x\s*\)\s*;", ps), "printSchemaFilenames OBJ_ENTITY: getEntityFilenames")
@@ -245,7 +245,21 @@ def extract(repo):
                       (r"dirname\.erase\s*\(\s*0\s*,\s*dirname\.rfind\s*\(\s*slash\s*\)\s*\+\s*1\s*\)", "last directory component")]:
         _need(re.search(pat, ms), "makeShortName: " + what)
 
+    # does a file with several schemas give each of them the schema name (fix C17-3)?  recognised: the guarded assignment in
+    # makeShortName together with the counting loop in main; neither -> the legacy rule; anything else raises
+    per_schema = bool(re.search(r"if\s*\(\s*schemasInFile\s*>\s*1\s*\)\s*\{\s*filename\s*=\s*longName\s*;\s*\}\s*filename\.insert", ms))
+    _need(per_schema or "schemasInFile" not in sc, "makeShortName / schemasInFile: not the modelled form of the per-schema short name")
     mn = _func_body(sc, r"int\s+main\s*\(\s*int\s+argc\s*,\s*char\s*\*\*\s*argv\s*\)\s*\{")
+    if per_schema:
+        _need(re.search(r"static\s+int\s+schemasInFile\s*=\s*0\s*;", sc) and
+              re.search(r"DICTdo_type_init\s*\(\s*model->symbol_table\s*,\s*&de\s*,\s*OBJ_SCHEMA\s*\)\s*;\s*while\s*\(\s*0\s*!=\s*\(\s*schema\s*=\s*\(\s*Schema\s*\)\s*DICTdo\s*\(\s*&de\s*\)\s*\)\s*\)\s*\{\s*\+\+schemasInFile\s*;\s*\}", mn),
+              "main counts the schemas of the file into schemasInFile before the first printSchemaFilenames")
+    # is a schema without any type and entity left without a build description (fix C17-4)?
+    skips = bool(re.search(r"if\s*\(\s*\(\s*ecount\s*==\s*0\s*\)\s*&&\s*!anyType\s*\)\s*\{[^{}]*return\s*;\s*\}\s*writeLists", ps))
+    _need(skips or "anyType" not in ps, "printSchemaFilenames / anyType: not the modelled form of the codeless-schema skip")
+    if skips:
+        _need(re.search(r"case\s+OBJ_TYPE\s*:\s*\{\s*Type\s+t\s*=\s*\(\s*Type\s*\)\s*x\s*;\s*anyType\s*=\s*true\s*;", ps) and re.search(r"bool\s+anyType\s*=\s*false\s*;", ps),
+              "anyType is set for every OBJ_TYPE entry, before the renamed / notGenerated skips")
     _need(re.search(r"DICTdo_type_init\s*\(\s*model->symbol_table\s*,\s*&de\s*,\s*OBJ_SCHEMA\s*\)\s*;\s*while\s*\(\s*0\s*!=\s*\(\s*schema\s*=\s*\(\s*Schema\s*\)\s*DICTdo\s*\(\s*&de\s*\)\s*\)\s*\)\s*\{\s*printSchemaFilenames\s*\(\s*schema\s*\)", mn), "main: printSchemaFilenames for every schema of the model")
 
     # ---- shared file-name helper and prefixes
@@ -428,6 +442,10 @@ def extract(repo):
     L.append(f"def maxLen : Nat := {max_len}")
     L.append("/-- print_file refuses (exit 1, before any file is created) inputs with an identifier longer than this -/")
     L.append(f"def maxIdentLen : Nat := maxLen - {ident_margin}")
+    L.append("/-- makeShortName: in a file with several schemas every schema gets `sdai_<schema name>` (fix C17-3) -/")
+    L.append(f"def shortNamePerSchema : Bool := {'true' if per_schema else 'false'}")
+    L.append("/-- printSchemaFilenames: a schema whose dictionary holds no type and no entity gets no CMakeLists.txt and no stdout line (fix C17-4) -/")
+    L.append(f"def skipsCodelessSchemas : Bool := {'true' if skips else 'false'}")
     L.append("")
     L.append("/-- body of writeLists(): the text streamed into CMakeLists.txt, statement by statement -/")
     L.append("def renderCMakeLists (schemaName shortName schemaUpper inputFile eh ei th ti : String) (ecount tcount : Nat) : String :=")
